@@ -4,6 +4,9 @@
    definition are a FUNCTION of the answers to the lookups its passes make (a
    modelling assumption, see "THE MODELLED INTERFACE" below), so that
    "definitions it does not reference" has a meaning in the model.
+   Model.RunnerLib mirrors how the name maps are built from the parsed files
+   after the repair of defect D22 (file-id order, first definition of a name
+   kept): no known finding and no carve-out is left in this file.
    Proofs.DesugarOrder covers the HashMap loops of remove_syntactic_sugar over
    Model.Desugar (the mirror of C18).  These theorems cover ALL iteration
    orders of the name maps, all lookup sequences and all orders of the
@@ -252,8 +255,9 @@ Print Assumptions C17_file_order_irrelevant.
    together.  Renumbering by any injective map changes nothing but those
    numbers: the same findings are displayed (with their files renumbered), the
    same exit status.  (C17_file_order_irrelevant above keeps the FileIDs fixed.) *)
-Theorem C17_file_ids_are_names : forall f p o order order',
+Theorem C17_file_ids_are_names : forall f,
   (forall x y, f x = f y -> x = y) ->
+  forall p o order order',
   wf_project p -> analysis_order p order -> analysis_order p order' ->
   Permutation (res_shown (run_keys (rn_project f p) o order'))
               (map (rn_report f) (res_shown (run_keys p o order))) /\
